@@ -2028,17 +2028,20 @@ def infer_lift(pN, pL, name):
     if len(fN.blocks) != len(fL.blocks):
         raise InferFail("number of blocks differs")
     vN, vL = FnView(pN, fN), FnView(pL, fL)
-    if any(i.kind == "alloc" and i.comment == HEX_SPLIT for i in vL.all):
-        return ("skip", "split-alloc")
     bN, bL = vN.blocks(), vL.blocks()
-    # ---- which naive Allocs were lifted away: match the Alloc subsequences of each block
+    # ---- which naive Allocs were lifted away / split: match the Alloc subsequences of each block
     cells = set()
+    split = {}      # naive alloc id -> lifted "split alloc" id
     for bi in range(len(bN)):
         aN = [i for i in bN[bi][1] if i.kind == "alloc"]
         aL = [i for i in bL[bi][1] if i.kind == "alloc"]
         j = 0
         for a in aN:
             if j < len(aL) and alloc_key(vN, a) == alloc_key(vL, aL[j]):
+                j += 1
+            elif (j < len(aL) and aL[j].comment == HEX_SPLIT and vN.tkey(a.ty) == vL.tkey(aL[j].ty)
+                  and a.attrs[1:] == aL[j].attrs[1:] and not vN.private(a.id)):
+                split[a.id] = aL[j].id
                 j += 1
             elif vN.private(a.id):
                 cells.add(a.id)
@@ -2047,14 +2050,57 @@ def infer_lift(pN, pL, name):
                 # rounds of lift): outside the validated fragment
                 return ("skip", "indirect-alloc")
         if j != len(aL):
+            if any(x.comment == HEX_SPLIT for x in aL[j:]):
+                return ("skip", "split-chain")
             raise InferFail("block %d: lifted function has an Alloc without counterpart" % bi)
+    split_l = set(split.values())
+    # escaping Allocs of the naive function that are neither kept nor split: their address was only
+    # stored into locals that were lifted themselves (several rounds of lift) - outside the fragment
+    n_split_l = sum(1 for i in vL.all if i.kind == "alloc" and i.comment == HEX_SPLIT)
+    kept = sum(1 for i in vL.all if i.kind == "alloc") - n_split_l
+    n_escaping = sum(1 for i in vN.all if i.kind == "alloc" and i.id not in vN.dropped and not vN.private(i.id))
+    if n_escaping - kept > n_split_l or len(split) != n_split_l:
+        return ("skip", "indirect-alloc")
 
-    def is_cell_access(i):
-        return (i.kind == "alloc" and i.id in cells) or (i.kind in ("load", "store") and i.ops[0] in cells)
+    def is_pub(l):
+        return l.kind == "store" and l.comment == HEX_SPLIT and l.ops[0] in split_l
 
     # ---- register relation by lock step
     rho = {i: i for i in range(fN.nparams + fN.nfree)}
-    pairs = []   # per block: list of (naive ins, lifted ins or None)
+    rho.update(split)
+    # which direct accesses of a split Alloc go to the object (and have a counterpart in the lifted
+    # function) rather than to the shadow cell: those after a use of the address as a value in the same
+    # block, and all those in blocks reachable from a block with such a use (lift.go's own rule; being
+    # part of the untrusted certificate it only has to be right, not trusted)
+    world_by_block = [set() for _ in bN]
+    for a in split:
+        nb = len(fN.blocks)
+        first_real = [None] * nb
+        for bi, b in enumerate(fN.blocks):
+            for pos, i in enumerate(b.instrs):
+                if i.kind == "debugref":
+                    continue
+                if any(o == a and not (i.kind in ("load", "store") and k == 0) for k, o in enumerate(i.ops)):
+                    first_real[bi] = 0 if i.kind == "phi" else pos
+                    break
+        tainted = [False] * nb
+        stack = [sc for bi in range(nb) if first_real[bi] is not None for sc in fN.blocks[bi].succs]
+        while stack:
+            x = stack.pop()
+            if not tainted[x]:
+                tainted[x] = True
+                stack += fN.blocks[x].succs
+        for bi, b in enumerate(fN.blocks):
+            for pos, i in enumerate(b.instrs):
+                if i.kind in ("load", "store") and i.ops[0] == a:
+                    if tainted[bi] or (first_real[bi] is not None and pos > first_real[bi]):
+                        world_by_block[bi].add(i.id)
+    world_all = set()
+    for w in world_by_block:
+        world_all |= w
+    acc_of = {a: set(i.id for i in vN.all if i.kind in ("load", "store") and i.ops[0] == a) for a in split}
+    inv_split = {v: k for k, v in split.items()}
+    pairs = []   # per block: list of (naive ins, lifted ins or None) and ("pub", naive alloc id, lifted store)
     for bi in range(len(bN)):
         pn, bodyN, tn = bN[bi]
         pl, bodyL, tl = bL[bi]
@@ -2063,20 +2109,56 @@ def infer_lift(pN, pL, name):
         for a, b in zip(pn, pl[len(pl) - len(pn):]):
             rho[a.id] = b.id
         j, pr = 0, []
+        world = world_by_block[bi]
+
+        def publishes(before_id):
+            nonlocal j
+            while j < len(bodyL) and is_pub(bodyL[j]):
+                l = bodyL[j]
+                pr.append(("pub", inv_split[l.ops[0]], l, before_id))
+                j += 1
+
         for i in bodyN:
-            if is_cell_access(i):
+            if any(o in split and not (i.kind in ("load", "store") and pos == 0) for pos, o in enumerate(i.ops)):
+                # the address of a split Alloc is used as a value: pending sync points come first
+                publishes(i.id)
+            if (i.kind == "alloc" and i.id in cells) or (i.kind in ("load", "store") and i.ops[0] in cells):
                 pr.append((i, None))
                 continue
+            if i.kind in ("load", "store") and i.ops[0] in split and i.id not in world:
+                pr.append((i, None))
+                continue
+            # an instruction with a counterpart: pending publish points come first
+            publishes(i.id)
+            if i.kind == "alloc" and i.id in split:
+                # the shadow cell is initialised here; the Alloc itself corresponds to the split alloc
+                if j >= len(bodyL) or bodyL[j].id != split[i.id]:
+                    raise InferFail("block %d: split alloc of v%d is not where the Alloc was" % (bi, i.id))
+                pr.append(("shadow", i))
             if j >= len(bodyL) or bodyL[j].kind != i.kind or len(bodyL[j].ops) != len(i.ops):
                 raise InferFail("block %d: naive %s (v%d) has no counterpart at position %d" % (bi, i.kind, i.id, j))
             rho[i.id] = bodyL[j].id
             pr.append((i, bodyL[j]))
             j += 1
+        if tn is not None:
+            publishes(tn.id)
         if j != len(bodyL):
             raise InferFail("block %d: lifted block has %d extra instruction(s), first %s" % (bi, len(bodyL) - j, bodyL[j].kind))
         if (tn is None) != (tl is None) or (tn is not None and (tn.kind != tl.kind or len(tn.ops) != len(tl.ops))):
             raise InferFail("block %d: terminators differ" % bi)
         pairs.append(pr)
+
+    # ---- sync points of the split Allocs: every "split alloc" store of the lifted function is mirrored
+    # in the naive function by `load t <shadow cell>; store x t` with fresh temporaries t, r
+    nvals = 1 + max([0] + list(fN.vals) + [i.id for i in vN.all])
+    sync = {a: [] for a in split}
+    tmp = nvals + 16
+    for bi in range(len(bN)):
+        for x in pairs[bi]:
+            if x[0] == "pub":
+                sync[x[1]].append((x[3], tmp, tmp + 1))
+                rho[tmp + 1] = x[2].id
+                tmp += 2
 
     # ---- entry maps by unification
     entry = [dict() for _ in bN]   # key -> Meta
@@ -2119,7 +2201,16 @@ def infer_lift(pN, pL, name):
                 return read(("l", c[1]))
             return c
 
-        for (i, l) in pairs[bi]:
+        for (i, l) in [(x[0], x[1]) if x[0] not in ("pub", "shadow") else (x, None) for x in pairs[bi]]:
+            if isinstance(i, tuple) and i[0] == "shadow":
+                env[("c", i[1].id)] = ("k", "zero", vN.tkey_elem(i[1]))
+                continue
+            if isinstance(i, tuple):
+                # publish: the lifted store initialises the split alloc with the content of the cell
+                _, a, st = i[:3]
+                if unify(read(("c", a)), vL.canon(st.ops[1])):
+                    changed[0] = True
+                continue
             if l is None:
                 if i.kind == "alloc":
                     env[("c", i.id)] = ("k", "zero", vN.tkey_elem(i))
@@ -2192,8 +2283,11 @@ def infer_lift(pN, pL, name):
                     continue
                 ent.append("%s%d:%d" % (key[0], key[1], vid))
         maps.append("m=" + ";".join(ent))
-    info = {"cells": len(cells), "new_phis": sum(len(bL[bi][0]) - len(bN[bi][0]) for bi in range(len(bN))), "conflicts": len(conflicts)}
-    return ("ok", sorted(cells), sorted(rho.items()), maps, info)
+    info = {"cells": len(cells), "split": len(split), "new_phis": sum(len(bL[bi][0]) - len(bN[bi][0]) for bi in range(len(bN))),
+            "conflicts": len(conflicts)}
+    sn = "sn=" + ",".join("%d@%s@%s" % (a, "+".join("%d:%d:%d" % p3 for p3 in sync[a]),
+                                        "+".join(str(w) for w in sorted(world_all) if True and w in acc_of[a])) for a in sorted(split))
+    return ("ok", sorted(cells), sorted(rho.items()), [sn] + maps, info)
 
 
 def _elem_key(view, i):
@@ -2222,7 +2316,11 @@ def lift_jobs(dump):
             try:
                 r = infer_lift(pN, pL, name)
             except InferFail as e:
-                jobs.append((mN, mL, name, "infer-fail", None, str(e)))
+                if any(i.kind == "alloc" and i.comment == HEX_SPLIT for b in pL.fns[name].blocks for i in b.instrs):
+                    # lift.go split an Alloc and a later round lifted through it: outside the validated fragment
+                    jobs.append((mN, mL, name, "skip-split-unvalidated", None, str(e)))
+                else:
+                    jobs.append((mN, mL, name, "infer-fail", None, str(e)))
                 continue
             if r[0] == "skip":
                 jobs.append((mN, mL, name, "skip-" + r[1], None, None))
@@ -2237,6 +2335,13 @@ def classify_case(go, by_mode):
     returns (status, detail): diff if some mode disagrees; agree if at least one mode was executed and
     all executed modes agree; otherwise skip / fuel"""
     bad, nag, nskip, nfuel = {}, 0, 0, 0
+    # the lifted form consists of a subset of the instructions of the naive form (plus phis): if the
+    # naive form runs and agrees but the lifted form of the same build is not executable (it reads a
+    # register that is never defined, a phi without the edge taken, ...), lifting produced IR without
+    # a documented meaning
+    for m, lo in by_mode.items():
+        if m.startswith("L") and "|SKIP " in lo and by_mode.get("N" + m[1:]) == go:
+            return "diff", {m: lo}
     for m, lo in by_mode.items():
         if "|SKIP " in lo:
             nskip += 1
@@ -2257,6 +2362,10 @@ def explain_diff(go, by_mode):
     ex = {m: v for m, v in by_mode.items() if "|SKIP " not in v and "|FUEL|" not in v}
     okN = all(v == go for m, v in ex.items() if m.startswith("N"))
     okL = all(v == go for m, v in ex.items() if m.startswith("L"))
+    for m, v in by_mode.items():
+        if m.startswith("L") and "|SKIP " in v and by_mode.get("N" + m[1:]) == go:
+            return ("lifting: the naive IR runs and behaves like the compiled program, the lifted IR of the same function is not "
+                    "executable (%s): it has no documented meaning (go/ir/lift.go)" % v.split("|")[1])
     if okN and not okL:
         return "lifting: the naive IR behaves like the compiled program, the lifted IR does not (go/ir/lift.go)"
     if okL and not okN:
@@ -2422,7 +2531,7 @@ def run(ctx):
     else:
         nvec = 6 if ctx.quick else 8
         corpus = load_corpus(nvec)
-        nprog = 5 if ctx.quick else 90
+        nprog = 4 if ctx.quick else 90
         rng = vlib.SplitMix(ctx.seed)
         gen = [program_from_seed("gen%d" % i, rng.fork("prog%d" % i).s, nvec) for i in range(nprog)]
     t0 = time.time()
@@ -2484,6 +2593,7 @@ def run(ctx):
     lift_bad = []
     lift_cells = 0
     lift_phis = 0
+    lift_split = 0
     for r in results:
         for l in r["lift"]:
             a = l["answer"]
@@ -2493,6 +2603,11 @@ def run(ctx):
                 k = "validated"
                 lift_cells += l["info"]["cells"]
                 lift_phis += l["info"]["new_phis"]
+                lift_split += l["info"].get("split", 0)
+            elif l["info"].get("split", 0) > 0:
+                # the shadow-cell certificate for a partially escaping Alloc could not be established:
+                # not validated (differential execution still covers the function), not an alarm
+                k = "skip-split-unvalidated"
             else:
                 k = "rejected"
             lift_counts[k] = lift_counts.get(k, 0) + 1
@@ -2544,10 +2659,12 @@ def run(ctx):
         "disagreements_checked": counts["diff"] + lift_counts.get("rejected", 0) + lift_counts.get("infer-fail", 0),
         "lift_validator": dict(sorted(lift_counts.items())),
         "lift_validator_note": "pairs (naive, lifted) x {debug off, on}; validated = Core.liftCheck accepted (then equal behaviour for all inputs by "
-                               "lift_validator_sound_partial); skip-split-alloc / skip-indirect-alloc = outside the validated fragment "
-                               "(covered by differential execution only); skip-external = no body",
+                               "lift_validator_sound_partial); skip-indirect-alloc / skip-split-unvalidated = an Alloc that was lifted only after an "
+                               "earlier round of lift removed its escaping use: outside the validated fragment (covered by differential "
+                               "execution only); skip-external = no body",
         "lift_validated_private_cells": lift_cells,
         "lift_validated_new_phis": lift_phis,
+        "lift_validated_split_allocs": lift_split,
         "distinct_nontrivial": len(nontrivial),
         "rule": "seeded generator of type-correct Go programs (24 entry functions + 6 helpers each) plus the hand-written corpus; "
                 "every entry function is run on its input vectors compiled by the Go toolchain and interpreted from the IR dumps of "
@@ -2594,9 +2711,10 @@ META = {
             "everything else opaque operations); the Lean decision procedure Core.liftCheck checks a register relation + per-block "
             "certificate (both inferred by untrusted Python), and the kernel-checked theorem lift_validator_sound_partial says that an "
             "accepted pair has equal results, panic outcome and final world for ALL inputs, worlds, block budgets and ALL meanings of "
-            "the non-lifted instructions; program_lift_sound_partial closes this under calls of any depth. `_partial`: functions in which "
-            "lift.go split a partially escaping Alloc (about a quarter of the generated functions) or lifted an Alloc only after an earlier "
-            "round removed its escaping use are outside the validated fragment and are reported as skip-*; the abstraction function is trusted. "
+            "the non-lifted instructions; program_lift_sound_partial closes this under calls of any depth. Allocs that escape on some paths "
+            "only (lift.go's split allocs) are validated through a shadow-cell abstraction whose sync points are checked by a typestate analysis. "
+            "`_partial`: the abstraction function (Abstract.toCore) is trusted, and functions in which an Alloc was lifted only after an earlier "
+            "round of lift removed its escaping use (3-4 % of the generated functions) are outside the validated fragment and reported as skip-*. "
             "(a) naive/lifted IR == compiled program: EXPLORED, not proved - every entry function of seeded type-correct programs "
             "(ints of all widths, bools, strings, arrays/slices, structs, pointers incl. address-taken locals escaping on some paths, closures, "
             "methods, interfaces/type switches, if/for/range over int, slice, string and func/switch/fallthrough/goto/labelled break+continue, "
